@@ -138,7 +138,8 @@ claimed = {
          "middleware.dispatchPending carries the order-preservation site obligation 'a request enters the bank pipeline directly only when the bank's delay queue is empty', which fails on the current code "
          "and is recorded as a known finding with a demonstration on the real component (a read overtakes an earlier write to the same address). "
          "Requests that cannot be dispatched and delayed items that cannot be released are re-queued in arrival order: each is appended, as it is visited, to the end of the one list that becomes the pending list / the bank's delay queue again, and an item handed to a pipeline is the one being visited (site obligations at the append and Accept sites of dispatchPending and tickDelayQueues). "
-         "One-response-each and the response contents against a flat memory are not decided."),
+         "finalizeRead reads the storage once per request (converted address, requested size), answers that very request with exactly the bytes read, and removes the request from the bank's buffer only after the top port accepted the response. "
+         "The whole-history statements (one response per request over all ticks, contents against a flat memory) follow from these steps only by an interleaving argument that is not mechanised."),
    note=(TB + "akita ports, pipelines, buffers, storage and address converters are external components (extern declarations: frame-only, results unconstrained; Storage.Read returns a fresh slice). "
          "Request interleavings over ticks are outside the technique; the finding's demonstration is run in the thorough tier."),
    design="5 (C17)", technique="deductive verification: WP-style VC generation over go/ssa + SMT (site obligations at call sites, loop invariant with entry-state reference)"),
